@@ -543,10 +543,27 @@ def _absorb_one(body, new, params, only=None):
             for blk in sub_blocks(s):
                 scan(blk)
     scan(body)
+    # a local that is written through (v[k] = .., v.attr = ..) or is the receiver of a method call (v.append(..)) is an object with identity, not a value
+    mutated = set()
+    for t in walk_stmts(body):
+        if t.k == 'assign' and t.target[0] in ('idx', 'attr'):
+            b = t.target
+            while b[0] in ('idx', 'attr'):
+                b = b[1]
+            if b[0] == 'var':
+                mutated.add(b[1])
+        for e in stmt_exprs(t):
+            for x in walk_expr(e):
+                if x[0] == 'call' and x[1][0] == 'attr' and x[1][1][0] == 'var':
+                    mutated.add(x[1][1][1])
+                if x[0] == 'call':
+                    for k_, a_ in x[3]:
+                        if k_ == 'out' and a_[0] == 'var':
+                            mutated.add(a_[1])
     for v in sorted(new):
         if only is not None and v != only:
             continue
-        if v in bad or v not in sites:
+        if v in bad or v not in sites or v in mutated:
             continue
         total = _uses(body, v)
         if total == 0:
